@@ -399,4 +399,200 @@ theorem projAcc_loadOrder (cfg : Cfg) (fs : FS) (fuel : Nat) (file spelled : APa
           simp [projAcc, LoadEvent.file?]
       | _ => rfl
 
+/-! ### the finish order of `parseOne` -/
+
+/-- no event of the list is an `@extern` load -/
+def AllFinished (evs : List LoadEvent) : Prop := ∀ e ∈ evs, ∃ p, e = LoadEvent.finished p
+
+theorem AllFinished.eq_map {evs : List LoadEvent} (h : AllFinished evs) :
+    evs = (evs.filterMap LoadEvent.file?).map LoadEvent.finished := by
+  induction evs with
+  | nil => rfl
+  | cons e es ih =>
+    obtain ⟨p, rfl⟩ := h e (by simp)
+    have := ih (fun e he => h e (List.mem_cons_of_mem _ he))
+    simp only [List.filterMap_cons, LoadEvent.file?, List.map_cons]
+    rw [← this]
+
+theorem flatMap_evDefs_map_finished (fs : FS) (l : List APath) :
+    (l.map LoadEvent.finished).flatMap (evDefs fs) = l.flatMap (fileDefs fs) := by
+  induction l with
+  | nil => rfl
+  | cons p ps ih => simp only [List.map_cons, List.flatMap_cons, ih, evDefs]
+
+/-- the finished files among the events of `loadOrder` are the `finished` list of `finishOrder` -/
+theorem loadOrder_files (cfg : Cfg) (fs : FS) (fuel : Nat) (file spelled : APath) (visited : List APath) :
+    (loadOrder cfg fs fuel file spelled (visited, [])).2.filterMap LoadEvent.file?
+      = (finishOrder cfg fs fuel file spelled (visited, [])).2 := by
+  have := projAcc_loadOrder cfg fs fuel file spelled (visited, [])
+  simp only [projAcc, List.filterMap_nil] at this
+  rw [← this]
+
+theorem loadOrder_visited (cfg : Cfg) (fs : FS) (fuel : Nat) (file spelled : APath) (visited : List APath) :
+    (loadOrder cfg fs fuel file spelled (visited, [])).1 = (finishOrder cfg fs fuel file spelled (visited, [])).1 := by
+  have := projAcc_loadOrder cfg fs fuel file spelled (visited, [])
+  simp only [projAcc, List.filterMap_nil] at this
+  rw [← this]
+
+/-- **Registration order, `@extern` loads included.** If a call of `parseOne` succeeds, the registry afterwards is the
+    registry before plus — in the order of `loadOrder`, a depth-first search over the load lines that knows nothing of
+    registries — the declarations of every file finished during the call (in textual order, each with its kind) and
+    the definitions of every external type file loaded by an `@extern` line, each at its place.
+
+    Hypotheses: `spelled` is a spelling of `file` (`SelfOk`; true for the root call and for every nested call), and
+    `visited` holds exactly the files in progress (`stack ++ [file]`) and the files already entered (`st.imported`). -/
+theorem parseOne_load_order (cfg : Cfg) (fs : FS) (fuel : Nat) (stack : List APath) (file spelled : APath)
+    (st : PState) (res : PResult) (st' : PState) (visited : List APath)
+    (h : parseOne cfg fs fuel stack file spelled st = .ok (res, st'))
+    (hself : SelfOk fs spelled file) (hv : Visited visited (stack ++ [file]) st.imported) :
+    st'.reg = st.reg ++ (loadOrder cfg fs fuel file spelled (visited, [])).2.flatMap (evDefs fs)
+      ∧ Visited (loadOrder cfg fs fuel file spelled (visited, [])).1 (stack ++ [file]) st'.imported := by
+  have := parseOne_order cfg fs st.reg fuel stack file spelled st res st' (visited, []) h hself ⟨hv, by simp⟩
+  exact ⟨this.2, this.1⟩
+
+/-- the qualified names a file declares, in the order `walkContents` registers them -/
+def fileKeys (fs : FS) (p : APath) : List String := (fileDefs fs p).map (·.key)
+
+theorem fileKeys_eq (fs : FS) (p : APath) (text : String) (f : File)
+    (hf : fs.get p = some (.idl text)) (hp : parseText text = some f) (e : Env) :
+    fileKeys fs p = (walkContents e [] f.contents).regs.map (·.key) := by
+  rw [regs_walkContents]
+  simp [fileKeys, fileDefs, hf, hp, declDefs]
+
+/-- **Finish order.** If a call of `parseOne` succeeds and no `@extern` line loaded an external type file during it,
+    then the files whose own declarations were registered during the call are, in order, exactly the `finished` list of
+    `finishOrder` (the depth-first search over `@import` lines started from the same `visited` list): the registry
+    afterwards is the registry before plus the declarations of these files, file by file, each file's in textual
+    order — entry by entry (key, kind, arity 0), hence in particular key by key. -/
+theorem parseOne_finish_order (cfg : Cfg) (fs : FS) (fuel : Nat) (stack : List APath) (file spelled : APath)
+    (st : PState) (res : PResult) (st' : PState) (visited : List APath)
+    (h : parseOne cfg fs fuel stack file spelled st = .ok (res, st'))
+    (hself : SelfOk fs spelled file) (hv : Visited visited (stack ++ [file]) st.imported)
+    (hne : AllFinished (loadOrder cfg fs fuel file spelled (visited, [])).2) :
+    st'.reg = st.reg ++ (finishOrder cfg fs fuel file spelled (visited, [])).2.flatMap (fileDefs fs)
+      ∧ st'.reg.map (·.key) = st.reg.map (·.key) ++ (finishOrder cfg fs fuel file spelled (visited, [])).2.flatMap (fileKeys fs)
+      ∧ Visited (finishOrder cfg fs fuel file spelled (visited, [])).1 (stack ++ [file]) st'.imported := by
+  obtain ⟨h1, h2⟩ := parseOne_load_order cfg fs fuel stack file spelled st res st' visited h hself hv
+  rw [hne.eq_map, flatMap_evDefs_map_finished, loadOrder_files] at h1
+  rw [loadOrder_visited] at h2
+  refine ⟨h1, ?_, h2⟩
+  rw [h1, List.map_append, List.map_flatMap]
+  rfl
+
+/-! ### when no `@extern` line loads anything; the events only grow -/
+
+/-- no `@extern` line can load an external type file: no IDL file has an `@extern` line, or the file system holds no
+    (valid) external type file -/
+def NoExternLoads (fs : FS) : Prop :=
+  (∀ p text f l, fs.get p = some (.idl text) → parseText text = some f → l ∈ f.loads → l.isImport = true)
+    ∨ (∀ p defs, fs.get p ≠ some (.ext defs))
+
+theorem AllFinished.append {a b : List LoadEvent} (ha : AllFinished a) (hb : AllFinished b) : AllFinished (a ++ b) := by
+  intro e he
+  rcases List.mem_append.mp he with h | h
+  · exact ha e h
+  · exact hb e h
+
+theorem loadStep_allFinished (cfg : Cfg) (fs : FS) (rec : APath → APath → OrderAcc → OrderAcc)
+    (hrec : ∀ p s a, AllFinished a.2 → AllFinished (rec p s a).2) (spelled : APath) (acc : OrderAcc) (l : LoadAt)
+    (hl : l.isImport = true ∨ ∀ p defs, fs.get p ≠ some (.ext defs)) (ha : AllFinished acc.2) :
+    AllFinished (loadStep cfg fs rec spelled acc l).2 := by
+  unfold loadStep
+  split
+  · exact ha
+  · rename_i c p hfind
+    split
+    · split
+      · exact ha
+      · exact hrec _ _ _ ha
+    · rename_i himp
+      split
+      · rename_i defs hg
+        rcases hl with hl | hl
+        · exact absurd hl himp
+        · exact absurd hg (hl p defs)
+      · exact ha
+
+theorem foldl_loadStep_allFinished (cfg : Cfg) (fs : FS) (rec : APath → APath → OrderAcc → OrderAcc)
+    (hrec : ∀ p s a, AllFinished a.2 → AllFinished (rec p s a).2) (spelled : APath) (loads : List LoadAt) (acc : OrderAcc)
+    (hl : ∀ l ∈ loads, l.isImport = true ∨ ∀ p defs, fs.get p ≠ some (.ext defs)) (ha : AllFinished acc.2) :
+    AllFinished (loads.foldl (loadStep cfg fs rec spelled) acc).2 := by
+  induction loads generalizing acc with
+  | nil => exact ha
+  | cons l ls ih =>
+    simp only [List.foldl_cons]
+    exact ih _ (fun l' hl' => hl l' (List.mem_cons_of_mem _ hl'))
+      (loadStep_allFinished cfg fs rec hrec spelled acc l (hl l (by simp)) ha)
+
+/-- Under `NoExternLoads` the events of `loadOrder` are all `finished` events. -/
+theorem loadOrder_allFinished (cfg : Cfg) (fs : FS) (hno : NoExternLoads fs) (fuel : Nat) (file spelled : APath)
+    (acc : OrderAcc) (ha : AllFinished acc.2) : AllFinished (loadOrder cfg fs fuel file spelled acc).2 := by
+  induction fuel generalizing file spelled acc with
+  | zero => exact ha
+  | succ n ih =>
+    simp only [loadOrder]
+    cases hf : fs.get file with
+    | none => exact ha
+    | some fc =>
+      cases fc with
+      | idl text =>
+        simp only []
+        cases hp : parseText text with
+        | none => exact ha
+        | some f =>
+          simp only []
+          refine AllFinished.append ?_ (fun e he => ⟨file, by simpa using he⟩)
+          refine foldl_loadStep_allFinished cfg fs _ (fun p s a h => ih p s a h) spelled f.loads acc ?_ ha
+          intro l hl
+          rcases hno with h | h
+          · exact Or.inl (h file text f l hf hp hl)
+          · exact Or.inr h
+      | _ => exact ha
+
+theorem loadStep_extends (cfg : Cfg) (fs : FS) (rec : APath → APath → OrderAcc → OrderAcc)
+    (hrec : ∀ p s a, ∃ ext, (rec p s a).2 = a.2 ++ ext) (spelled : APath) (acc : OrderAcc) (l : LoadAt) :
+    ∃ ext, (loadStep cfg fs rec spelled acc l).2 = acc.2 ++ ext := by
+  unfold loadStep
+  split
+  · exact ⟨[], by simp⟩
+  · split
+    · split
+      · exact ⟨[], by simp⟩
+      · exact hrec _ _ _
+    · split
+      · exact ⟨_, rfl⟩
+      · exact ⟨[], by simp⟩
+
+theorem foldl_loadStep_extends (cfg : Cfg) (fs : FS) (rec : APath → APath → OrderAcc → OrderAcc)
+    (hrec : ∀ p s a, ∃ ext, (rec p s a).2 = a.2 ++ ext) (spelled : APath) (loads : List LoadAt) (acc : OrderAcc) :
+    ∃ ext, (loads.foldl (loadStep cfg fs rec spelled) acc).2 = acc.2 ++ ext := by
+  induction loads generalizing acc with
+  | nil => exact ⟨[], by simp⟩
+  | cons l ls ih =>
+    simp only [List.foldl_cons]
+    obtain ⟨e1, h1⟩ := loadStep_extends cfg fs rec hrec spelled acc l
+    obtain ⟨e2, h2⟩ := ih (loadStep cfg fs rec spelled acc l)
+    exact ⟨e1 ++ e2, by rw [h2, h1, List.append_assoc]⟩
+
+/-- `loadOrder` only appends events. -/
+theorem loadOrder_extends (cfg : Cfg) (fs : FS) (fuel : Nat) (file spelled : APath) (acc : OrderAcc) :
+    ∃ ext, (loadOrder cfg fs fuel file spelled acc).2 = acc.2 ++ ext := by
+  induction fuel generalizing file spelled acc with
+  | zero => exact ⟨[], by simp [loadOrder]⟩
+  | succ n ih =>
+    simp only [loadOrder]
+    cases hf : fs.get file with
+    | none => exact ⟨[], by simp⟩
+    | some fc =>
+      cases fc with
+      | idl text =>
+        simp only []
+        cases hp : parseText text with
+        | none => exact ⟨[], by simp⟩
+        | some f =>
+          simp only []
+          obtain ⟨e, he⟩ := foldl_loadStep_extends cfg fs _ (fun p s a => ih p s a) spelled f.loads acc
+          exact ⟨e ++ [.finished file], by rw [he, List.append_assoc]⟩
+      | _ => exact ⟨[], by simp⟩
+
 end Pydjinni.Front
